@@ -21,6 +21,23 @@ def main():
     matplotlib.use('Agg')
     from geophires_monte_carlo import MC_GeoPHIRES3
 
+    pre = os.environ.pop('VERIF_MC_PRELUDE', None)
+    if pre:
+        # an earlier study in this process on the same base file, which then held other content (not observed: no trace directory)
+        pbase, psettings, pout = pre.split('|')
+        base = sys.argv[3]
+        requested = open(base).read()
+        tr = os.environ.pop('VERIF_MC_TRACE_DIR', None)
+        try:
+            open(base, 'w').write(open(pbase).read())
+            try:
+                MC_GeoPHIRES3.main(command_line_args=[sys.argv[2], base, psettings, pout])
+            except BaseException:  # noqa: BLE001
+                pass
+        finally:
+            open(base, 'w').write(requested)
+            if tr is not None:
+                os.environ['VERIF_MC_TRACE_DIR'] = tr
     MC_GeoPHIRES3.main(command_line_args=sys.argv[2:])
 
 
